@@ -208,16 +208,16 @@ Definition rasterio_open (fs : string -> option rfile) (v : jv) : res rfile :=
 Definition py_dataset (ds : dataset) : Prop :=
   NoDup (map fst (ds_vars ds)) /\ ~ In "im" (map fst (ds_vars ds)) /\ ~ In "disparity" (map fst (ds_vars ds)).
 
-(* ------------------------------------------------------------------ check_input_section with its three custom checks as parameters *)
+(* ------------------------------------------------------------------ check_input_section with its custom checking as a parameter *)
 
-(* Model/InputCheck.v [check_completed], the two calls of check_disparities_from_input and the call of
-   check_images abstracted (Proofs/CheckGenP.v: equal to [check_completed] by reflexivity when the
-   parameters are the hand-written models) *)
+(* Model/InputCheck.v [check_completed] with everything that follows the json-checker validation (the two
+   calls of check_disparities_from_input and the call of check_images, on which values of the completed
+   configuration) abstracted as one function of the configuration; Proofs/CheckGenP.v: equal to
+   [check_completed] when the parameter is [model_custom], the tail of the hand-written model *)
 Section Completed.
   Variable orc : string -> jv -> option bool.
   Variable SC : input_schemas.
-  Variable cdfi : jv -> jv -> res unit.
-  Variable cimg : jv -> res unit.
+  Variable custom : jv -> res unit.
 
   Definition check_completed_with (cfg : jv) : res unit :=
     do inp <- subscript cfg "input" ;;
@@ -226,11 +226,21 @@ Section Completed.
     do rstr <- (if is_list ld then Ok false
                 else do r <- subscript inp "right" ;; do rd <- subscript r "disp" ;; Ok (is_str rd)) ;;
     if negb (accepts orc (chosen_schema SC (is_list ld) rstr) cfg) then Raise ESchema
-    else
-      do limg <- subscript l "img" ;;
-      andthen (cdfi ld limg)
-      (do r <- subscript inp "right" ;;
-       do rd <- subscript r "disp" ;;
-       do rimg <- subscript r "img" ;;
-       andthen (cdfi rd rimg) (cimg inp)).
+    else custom cfg.
 End Completed.
+
+Section ModelCustom.
+  Variable fs : string -> option finfo.
+  Variable images : list string.
+
+  Definition model_custom (cfg : jv) : res unit :=
+    do inp <- subscript cfg "input" ;;
+    do l <- subscript inp "left" ;;
+    do ld <- subscript l "disp" ;;
+    do limg <- subscript l "img" ;;
+    andthen (check_disparities_from_input fs ld limg)
+    (do r <- subscript inp "right" ;;
+     do rd <- subscript r "disp" ;;
+     do rimg <- subscript r "img" ;;
+     andthen (check_disparities_from_input fs rd rimg) (check_images fs images inp)).
+End ModelCustom.
